@@ -1,1 +1,492 @@
-fn main(){}
+//! C13 — every data-model shape round-trips as one well-formed YAML document.
+//!
+//! Oracle (differential on the real code, `vcore::tygen::roundtrip`): for a value `v` of a run-time
+//! type `ty` and a valid serializer option vector `o`
+//!   1. `to_string_with_options(&TSer(ty, v), o)` is `Ok` (no panic),
+//!   2. the raw parser accepts the text and sees exactly one document,
+//!   3. `from_multiple::<IgnoredAny>` yields one item,
+//!   4. `SchemaSeed(ty)` over `with_deserializer_from_str` gives `v` back (floats bitwise, `Map`
+//!      types compared as unordered pair sets).
+//! Failing cases are shrunk by a deterministic typed shrinker (`tygen::Shrinker`) to a locally
+//! minimal case; the signature is the class of that minimal case (`classes.rs`).
+
+mod classes;
+
+use serde::Serialize;
+use serde_json::{Value, json};
+use std::cell::RefCell;
+use std::collections::{BTreeMap, HashMap};
+use std::rc::Rc;
+use vcore::rng::{Rng, fnv};
+use vcore::run::{Finish, Run, Tier, par_range};
+use vcore::ty::{self, TSer, TVal, Ty, TyCfg, TyGrammar};
+use vcore::tygen::{self, Opt, Rt, Shrinker, Stage};
+
+fn fails(ty: &Ty, v: &TVal, o: &Opt) -> bool {
+    tygen::roundtrip(ty, v, o).fail.is_some()
+}
+
+thread_local! {
+    static SHRINKER: RefCell<Shrinker> = RefCell::new(Shrinker::new(fails));
+    /// per-thread number of full violation reports per signature (the rest is only counted)
+    static REPORTED: RefCell<HashMap<String, u64>> = RefCell::new(HashMap::new());
+    static LOCAL: RefCell<BTreeMap<String, u64>> = const { RefCell::new(BTreeMap::new()) };
+}
+
+fn lcount(key: &str, n: u64) {
+    LOCAL.with(|l| *l.borrow_mut().entry(key.to_string()).or_insert(0) += n);
+}
+
+fn flush_local(run: &Run) {
+    LOCAL.with(|l| {
+        let mut l = l.borrow_mut();
+        for (k, v) in l.iter() {
+            run.count(k, *v);
+        }
+        l.clear();
+    });
+}
+
+fn case_json(ty: &Ty, v: &TVal, o: &Opt, text: Option<&str>, part: &str) -> Value {
+    json!({
+        "part": part,
+        "ty": ty.to_json(),
+        "ty_text": ty.to_string(),
+        "v": serde_json::to_string(v).unwrap_or_default(),
+        "opt": o.to_json(),
+        "emitted": text,
+    })
+}
+
+fn report(run: &Run, sig: &str, mk_case: impl FnOnce() -> Value, mk_detail: impl FnOnce() -> String) {
+    let n = REPORTED.with(|r| {
+        let mut r = r.borrow_mut();
+        let e = r.entry(sig.to_string()).or_insert(0);
+        *e += 1;
+        *e
+    });
+    lcount(&format!("failing_cases/{sig}"), 1);
+    if n <= 4 {
+        run.violation(sig, mk_case(), mk_detail());
+    }
+}
+
+/// Verdict for one already evaluated case.
+fn judge(run: &Run, ty: &Ty, v: &TVal, o: &Opt, rt: &Rt, part: &str) {
+    if let Some(u) = rt.unspecified {
+        lcount(&format!("unspecified/{u}"), 1);
+        return;
+    }
+    if rt.null_doc_skipped {
+        lcount("unspecified/from_multiple-skips-null-document", 1);
+    }
+    if rt.directive_defect {
+        report(
+            run,
+            "C13:yaml_12:directive-without-document-start",
+            || case_json(ty, v, o, rt.text.as_deref(), part),
+            || "yaml_12: the text starts with `%YAML 1.2` but no `---` follows, the raw parser rejects the document".to_string(),
+        );
+    }
+    match &rt.fail {
+        None => {
+            if !rt.directive_defect {
+                lcount("held", 1);
+            }
+            if v.node_count() >= 2 {
+                run.nontrivial(tygen::hash_case(ty, v, o));
+            }
+        }
+        Some(Stage::Panic(p)) => {
+            let sig = format!("C13:panic:{}", vcore::obs::panic_site(p));
+            report(run, &sig, || case_json(ty, v, o, rt.text.as_deref(), part), || p.clone());
+        }
+        Some(stage) => {
+            let min = SHRINKER.with(|s| s.borrow_mut().minimal(ty, v, o));
+            let sig = classes::signature(&min);
+            lcount(&format!("failure_stage/{}", stage.kind()), 1);
+            report(
+                run,
+                &sig,
+                || {
+                    let mut c = case_json(ty, v, o, rt.text.as_deref(), part);
+                    let mtext = tygen::emit(&TSer(&min.ty, &min.v), &min.o).ok();
+                    c["minimal"] = json!({
+                        "ty_text": min.ty.to_string(),
+                        "v": format!("{:?}", min.v),
+                        "opt_non_default": min.o.non_default(),
+                        "form": tygen::form(&min.ty, &min.v),
+                        "emitted": mtext,
+                    });
+                    c
+                },
+                || format!("{}: {}", stage.kind(), stage.detail()),
+            );
+            if std::env::var_os("VERIF_EXPLORE").is_some() {
+                explore_note(&sig, &min);
+            }
+        }
+    }
+}
+
+static EXPLORE: std::sync::Mutex<BTreeMap<String, (u64, String)>> = std::sync::Mutex::new(BTreeMap::new());
+
+fn explore_note(sig: &str, min: &tygen::Minimal) {
+    let key = format!("{sig}  <=  {} | {}", tygen::form(&min.ty, &min.v), tygen::opt_class(&min.o));
+    let mut e = EXPLORE.lock().unwrap();
+    let ent = e.entry(key).or_insert_with(|| {
+        let rt = tygen::roundtrip(&min.ty, &min.v, &min.o);
+        (
+            0,
+            format!(
+                "{} = {:?} [{}]\n      {:?}\n      {}",
+                min.ty,
+                min.v,
+                min.o.non_default().join(","),
+                rt.text.unwrap_or_default(),
+                rt.fail.map(|s| format!("{}: {}", s.kind(), s.detail())).unwrap_or_default()
+            ),
+        )
+    });
+    ent.0 += 1;
+}
+
+fn observe_contexts(run: &Run, ty: &Ty, v: &TVal) {
+    tygen::contexts(ty, v, &mut |p, pos, c| run.observe("emitter_contexts(parent/position/child)", &format!("{p}/{pos}/{c}")));
+}
+
+fn check_case(run: &Run, ty: &Ty, v: &TVal, o: &Opt, part: &str) {
+    run.eval();
+    let rt = tygen::roundtrip(ty, v, o);
+    judge(run, ty, v, o, &rt, part);
+}
+
+/// All option vectors of the exhaustive part: 2^7 booleans x indent {2, 1, 4}.
+fn all_opts() -> Vec<Opt> {
+    let mut v = Vec::new();
+    for indent in [2usize, 1, 4] {
+        for bits in 0..128u8 {
+            v.push(Opt::from_bits(bits, indent));
+        }
+    }
+    v
+}
+
+/// One (ty, v) under a list of option vectors; the text-level steps are evaluated once per
+/// distinct emitted text (the oracle's steps 2-4 are a function of (ty, v, text)).
+fn check_pair_all_opts(run: &Run, ty: &Ty, v: &TVal, opts: &[Opt], part: &str) {
+    let mut seen: HashMap<(u64, bool), Rc<Rt>> = HashMap::new();
+    let has_empty = tygen::has_empty_collection(ty, v);
+    for o in opts {
+        run.eval();
+        let text = match tygen::emit(&TSer(ty, v), o) {
+            Ok(t) => t,
+            Err(stage) => {
+                let rt = Rt { text: None, directive_defect: false, unspecified: None, null_doc_skipped: false, fail: Some(stage) };
+                judge(run, ty, v, o, &rt, part);
+                continue;
+            }
+        };
+        let unspec = !o.empty_as_braces && has_empty;
+        let key = (fnv(text.as_bytes()), unspec);
+        let rt = match seen.get(&key) {
+            Some(rt) => {
+                lcount("text_cache_hits", 1);
+                rt.clone()
+            }
+            None => {
+                let rt = Rc::new(tygen::roundtrip(ty, v, o));
+                lcount("distinct_texts_checked", 1);
+                seen.insert(key, rt.clone());
+                rt
+            }
+        };
+        judge(run, ty, v, o, &rt, part);
+    }
+}
+
+// ---------------------------------------------------------------- anchored pair (custom anchor names)
+
+struct OwnedVal(Ty, TVal);
+impl Serialize for OwnedVal {
+    fn serialize<S: serde::Serializer>(&self, s: S) -> Result<S::Ok, S::Error> {
+        TSer(&self.0, &self.1).serialize(s)
+    }
+}
+
+#[derive(Serialize)]
+struct SharedPair {
+    f0: serde_saphyr::RcAnchor<OwnedVal>,
+    f1: serde_saphyr::RcAnchor<OwnedVal>,
+}
+
+/// The same value twice behind one `Rc` (first occurrence defines the anchor, second is an alias),
+/// as two struct fields and as two sequence items. The `anchor_generator` option must change the
+/// anchor *names* and nothing else: same outcome, and the same text once the names are mapped back.
+/// (How anchors are laid out around each shape is C14's subject; here only the option is judged.)
+fn check_anchored(run: &Run, ty: &Ty, v: &TVal, o: &Opt) {
+    let rc = std::rc::Rc::new(OwnedVal(ty.clone(), v.clone()));
+    let pair = SharedPair { f0: serde_saphyr::RcAnchor(rc.clone()), f1: serde_saphyr::RcAnchor(rc.clone()) };
+    let seq = vec![serde_saphyr::RcAnchor(rc.clone()), serde_saphyr::RcAnchor(rc)];
+    let o_def = Opt { anchor_gen: false, ..*o };
+    let o_gen = Opt { anchor_gen: true, ..*o };
+    for (which, a, b) in [
+        ("struct", tygen::emit(&pair, &o_def), tygen::emit(&pair, &o_gen)),
+        ("seq", tygen::emit(&seq, &o_def), tygen::emit(&seq, &o_gen)),
+    ] {
+        run.evals(2);
+        let case = |t: Option<&str>| {
+            let mut c = case_json(ty, v, o, t, "anchored-pair");
+            c["holder"] = json!(which);
+            c
+        };
+        match (a, b) {
+            (Err(Stage::Panic(p)), _) | (_, Err(Stage::Panic(p))) => {
+                report(run, &format!("C13:panic:{}", vcore::obs::panic_site(&p)), || case(None), || p.clone());
+            }
+            (Ok(t0), Ok(t1)) => {
+                let mapped = t1.replace("&anc1x", "&a1").replace("*anc1x", "*a1");
+                if mapped != t0 {
+                    report(
+                        run,
+                        "C13:anchor_generator:changes-more-than-the-names",
+                        || case(Some(&t1)),
+                        || format!("default names: {t0:?} | custom names: {t1:?}"),
+                    );
+                } else if t0.contains("&a1") && t1.contains("&anc1x") {
+                    lcount("anchored/names-only-differ", 1);
+                    run.nontrivial(tygen::hash_case(ty, v, o) ^ fnv(which.as_bytes()));
+                    run.observe("anchor_names", "a1 <-> anc1x");
+                } else {
+                    lcount("anchored/no-anchor-emitted(C14's-subject)", 1);
+                }
+            }
+            (Err(_), Err(_)) => lcount("anchored/both-serializer-errors", 1),
+            (a, b) => {
+                report(
+                    run,
+                    "C13:anchor_generator:changes-the-outcome",
+                    || case(None),
+                    || format!("default names: {:?} | custom names: {:?}", a.map_err(|s| s.detail()), b.map_err(|s| s.detail())),
+                );
+            }
+        }
+    }
+}
+
+// ---------------------------------------------------------------- special leaves
+
+const LONG_WORD_LEN: usize = 1100;
+
+fn special_strings() -> Vec<String> {
+    vec![
+        " lead\nx".into(),
+        "  two lead\n next".into(),
+        "tail\n\n".into(),
+        "\nfirst-empty".into(),
+        "x\n  more\ny\n".into(),
+        "\n".into(),
+        format!("{}\n{}", "long line ".repeat(12), "second"),
+        format!("{}\rmore text after a carriage return\n", "word ".repeat(24)),
+        "k".repeat(LONG_WORD_LEN),
+        "plain but long enough to be folded when block scalars are preferred, more than eighty characters".into(),
+    ]
+}
+
+/// Replace the Str leaves equal to `from` by `to`.
+fn subst_str(ty: &Ty, v: &TVal, from: &str, to: &str) -> (Ty, TVal) {
+    tygen::map_nodes(ty, v, &|t, x| match &x {
+        TVal::Str(s) if s == from => (t, TVal::Str(to.to_string())),
+        _ => (t, x),
+    })
+}
+
+fn random_opt(rng: &mut Rng) -> Opt {
+    let mut o = Opt::from_bits(rng.below(128) as u8, *rng.pick(&[1usize, 2, 2, 2, 3, 4, 4, 5, 8, 10]));
+    if rng.chance(1, 3) {
+        o.folded_wrap_chars = *rng.pick(&[8usize, 20, 40, 200]);
+    }
+    o
+}
+
+fn main() {
+    let run = Run::from_args("C13");
+    if let Some(rep) = run.is_replay() {
+        let c = &rep["case"];
+        let ty = Ty::from_json(&c["ty"]);
+        let v: Option<TVal> = c["v"].as_str().and_then(|s| serde_json::from_str(s).ok());
+        let (Some(ty), Some(v)) = (ty, v) else {
+            eprintln!("harness error: replay file has no usable ty/v");
+            std::process::exit(2);
+        };
+        let o = Opt::from_json(&c["opt"]);
+        if c["part"].as_str() == Some("anchored-pair") {
+            check_anchored(&run, &ty, &v, &o);
+        } else {
+            check_case(&run, &ty, &v, &o, "replay");
+        }
+        flush_local(&run);
+        run.finish(Finish::new("replay"));
+    }
+
+    let tier = run.tier;
+    let max_nodes: usize = std::env::var("C13_MAX_NODES").ok().and_then(|s| s.parse().ok()).unwrap_or(tier.pick(4, 5));
+    let cap: usize = std::env::var("C13_CAP").ok().and_then(|s| s.parse().ok()).unwrap_or(tier.pick(8, 8));
+    let g = TyGrammar::full();
+    let by_size = ty::small_tys_by_size(max_nodes, &g);
+    let opts = all_opts();
+    // option subset for the largest size class in the thorough tier: every pair of option values
+    // appears (all 2^7 with indent 2, and a 16-row covering subset with indent 1 and 4)
+    let opts_reduced: Vec<Opt> = {
+        let mut v: Vec<Opt> = (0..128u8).map(|b| Opt::from_bits(b, 2)).collect();
+        for indent in [1usize, 4] {
+            for b in [0u8, 0x7f, 0x55, 0x2a, 0x33, 0x4c, 0x0f, 0x70, 0x01, 0x02, 0x04, 0x08, 0x10, 0x20, 0x40, 0x3f] {
+                v.push(Opt::from_bits(b, indent));
+            }
+        }
+        v
+    };
+
+    // ---- part A: exhaustive small trees
+    let mut scope_parts = Vec::new();
+    for (n, tys) in by_size.iter().enumerate() {
+        if tys.is_empty() {
+            continue;
+        }
+        let reduced = tier == Tier::Thorough && n >= 5;
+        let use_opts: &[Opt] = if reduced { &opts_reduced } else { &opts };
+        run.count(&format!("exhaustive/types_with_{n}_nodes"), tys.len() as u64);
+        let incomplete = std::sync::atomic::AtomicU64::new(0);
+        let pairs = std::sync::atomic::AtomicU64::new(0);
+        par_range(tys.len(), |i| {
+            let t = &tys[i];
+            let (vals, complete) = ty::small_vals(t, cap);
+            if !complete {
+                incomplete.fetch_add(1, std::sync::atomic::Ordering::Relaxed);
+            }
+            pairs.fetch_add(vals.len() as u64, std::sync::atomic::Ordering::Relaxed);
+            for (j, v) in vals.iter().enumerate() {
+                observe_contexts(&run, t, v);
+                check_pair_all_opts(&run, t, v, use_opts, "exhaustive");
+                if (i * 131 + j) % 20011 == 0 {
+                    let o = use_opts[(i + j) % use_opts.len()];
+                    run.sample(|| json!({"ty": t.to_string(), "v": format!("{v:?}"), "opt": o.non_default(), "emitted": tygen::emit(&TSer(t, v), &o).ok()}));
+                }
+            }
+            flush_local(&run);
+        });
+        let inc = incomplete.load(std::sync::atomic::Ordering::Relaxed);
+        run.count(&format!("exhaustive/pairs_with_{n}_type_nodes"), pairs.load(std::sync::atomic::Ordering::Relaxed));
+        run.count(&format!("exhaustive/types_with_{n}_nodes_value_list_capped"), inc);
+        scope_parts.push(format!("{n} nodes: {} types x {} option vectors{}", tys.len(), use_opts.len(), if inc > 0 { format!(" ({inc} types with value list strided to {cap})") } else { String::new() }));
+    }
+
+    // ---- part B: block-scalar leaf variants and long leaves in every small position
+    {
+        let small: Vec<(Ty, TVal)> = ty::small_pairs(3.min(max_nodes), &g, cap);
+        let with_ml: Vec<&(Ty, TVal)> =
+            small.iter().filter(|(t, v)| tygen::any_node(t, v, &|_, x| matches!(x, TVal::Str(s) if s == "two\nlines"))).collect();
+        let specials = special_strings();
+        run.count("special_leaves/host_pairs", with_ml.len() as u64);
+        let opts_b: Vec<Opt> = opts.iter().filter(|o| !o.anchor_gen && !o.tagged_enums).cloned().collect();
+        par_range(with_ml.len(), |i| {
+            let (t, v) = with_ml[i];
+            for (k, sp) in specials.iter().enumerate() {
+                // long leaves only under a thinner option set (they are expensive and C12's business as content)
+                let use_opts: Vec<Opt> = if sp.len() > 400 { opts_b.iter().step_by(5).cloned().collect() } else { opts_b.clone() };
+                let (t2, v2) = subst_str(t, v, "two\nlines", sp);
+                check_pair_all_opts(&run, &t2, &v2, &use_opts, "special-leaves");
+                if (i + k) % 997 == 0 {
+                    run.sample(|| json!({"ty": t2.to_string(), "v": format!("{v2:?}").chars().take(300).collect::<String>(), "part": "special-leaves"}));
+                }
+            }
+            flush_local(&run);
+        });
+    }
+
+    // ---- part C: anchors with default and custom names around every small value
+    {
+        let small: Vec<(Ty, TVal)> = ty::small_pairs(tier.pick(2, 3).min(max_nodes), &g, cap);
+        run.count("anchored/host_pairs", small.len() as u64);
+        let opts_c: Vec<Opt> = opts.iter().filter(|o| !o.anchor_gen).cloned().collect();
+        par_range(small.len(), |i| {
+            let (t, v) = &small[i];
+            for o in &opts_c {
+                check_anchored(&run, t, v, o);
+            }
+            flush_local(&run);
+        });
+    }
+
+    // ---- part D: random trees to depth 6 with sampled options
+    let n_random = std::env::var("C13_RANDOM").ok().and_then(|s| s.parse().ok()).unwrap_or(tier.pick(150_000usize, 2_000_000));
+    let specials = special_strings();
+    par_range(n_random, |i| {
+        let mut rng = Rng::stream(run.seed, i as u64);
+        let depth = rng.range(2, 6);
+        let cfg = TyCfg { nullable_in_option: false, defaults: false, deny_unknown: true, bytes: false, floats: true };
+        let t = ty::random_ty_with(&mut rng, depth, &cfg);
+        let v = ty::random_val(&mut rng, &t);
+        let (t, v) = if rng.chance(1, 6) {
+            let sp = rng.pick(&specials).clone();
+            let pool_hit = *rng.pick(ty::STR_POOL);
+            subst_str(&t, &v, pool_hit, &sp)
+        } else {
+            (t, v)
+        };
+        if !distinct_key_scalars(&t, &v) {
+            lcount("random/skipped-keys-with-equal-scalars", 1);
+            return;
+        }
+        let o = random_opt(&mut rng);
+        run.observe("random_depths", &format!("{}", t.depth()));
+        if i % 64 == 0 {
+            observe_contexts(&run, &t, &v);
+        }
+        check_case(&run, &t, &v, &o, "random");
+        if i % 7919 == 0 {
+            run.sample(|| json!({"ty": t.to_string(), "v": format!("{v:?}").chars().take(400).collect::<String>(), "opt": o.non_default(), "part": "random"}));
+        }
+        if i % 512 == 0 {
+            flush_local(&run);
+        }
+    });
+    // flush what is left in the worker-local maps: run a tiny job on every worker
+    par_range(vcore::run::threads() * 4, |_| flush_local(&run));
+    flush_local(&run);
+
+    if std::env::var_os("VERIF_EXPLORE").is_some() {
+        let e = EXPLORE.lock().unwrap();
+        for (k, (n, ex)) in e.iter() {
+            eprintln!("{n:>9}  {k}\n      {ex}");
+        }
+        eprintln!("distinct (signature, minimal form) pairs: {}", e.len());
+    }
+
+    let fin = Finish::new(
+        "a case (type, value, option vector) is non-trivial when the value tree has >= 2 nodes and the case was judged (held); distinct by hash(type, value, options)",
+    )
+    .exhaustive(format!(
+        "all types of the C13 shape grammar (vcore::ty::TyGrammar::full: 8 leaf types, 6 key types incl. tuple and struct keys, option/newtype/seq/map/struct/newtype-variant/struct-variant/tuple/tuple-struct/tuple-variant constructors) with <= {max_nodes} type nodes x small values (leaf pools incl. empty, multi-line, quote-needing and null-like strings, negative ints; seqs/maps of length 0..2) x option vectors [2^7 booleans x indent_step {{2,1,4}}]: {}",
+        scope_parts.join("; ")
+    ))
+    .assume("raw saphyr-parser event stream is the ground truth for well-formedness and the number of documents")
+    .assume("empty collections under empty_as_braces=false are documented as indistinguishable from null: no verdict (counted as unspecified)")
+    .assume("from_multiple documents that empty (null) documents are ignored: 0 items for a null root is no verdict")
+    .min_nontrivial(tier.pick(100_000, 1_000_000));
+    run.finish(fin);
+}
+
+/// Excluded from the grammar: maps whose distinct keys serialize to the same scalar.
+fn distinct_key_scalars(ty: &Ty, v: &TVal) -> bool {
+    !tygen::any_node(ty, v, &|t, x| match (t, x) {
+        (Ty::Map(k, _), TVal::Map(ps)) => {
+            let mut seen = std::collections::HashSet::new();
+            ps.iter().any(|(a, _)| {
+                let txt = serde_saphyr::to_string(&TSer(k, a)).unwrap_or_default();
+                !seen.insert(txt)
+            })
+        }
+        _ => false,
+    })
+}
